@@ -18,6 +18,6 @@ fi
 rm -rf $D/repo; ln -s $D/repo-$PROFILE $D/repo
 rsync -a --delete /verif/simrt/ $D/simrt/
 rsync -a --delete /verif/harness/ $D/harness/
-cp /repo/go.sum $D/harness/go.sum
+cat /repo/go.sum /verif/harness/go.sum.extra > $D/harness/go.sum
 cd $D/harness && go1.26.8 test -tags verif -c -o $D/worker-$PROFILE.test ./sim
 echo built $D/worker-$PROFILE.test
